@@ -661,8 +661,6 @@ theorem retryLoop_err (c : Cfg) (s : St) (size fuel : Nat) (post : Meta → M Me
     · rw [if_neg hk]
       have hr := hr hk
       have hi : i + 1 ≤ c.retries := by rcases hi with hi | hi; exact hi; exact absurd hi hk
-      rw [subU_ok _ _ _ hr.1]
-      simp only []
       by_cases hl : i = c.retries - 1
       · rw [if_pos hl]; rfl
       · rw [if_neg hl, if_pos (by omega)]
